@@ -1,5 +1,6 @@
 mod ana;
 mod core;
+mod gleam;
 mod lsp;
 mod props;
 
@@ -60,6 +61,7 @@ fn check(prop: &str, tier: Tier) -> i32 {
         "C01" => props::parser::run(props::parser::Which::C01, tier),
         "C02" => props::parser::run(props::parser::Which::C02, tier),
         "C03" => props::recovery::run(tier),
+        "C04" => props::grammar::run(tier),
         "C06" => props::ide_sweep::run(props::ide_sweep::Which::C06, tier),
         "C07" => props::rename::run_c07(tier),
         "C08" => props::rename::run_c08(tier),
@@ -95,6 +97,7 @@ fn replay(path: &str) -> i32 {
         "C01" => props::parser::replay(props::parser::Which::C01, w),
         "C02" => props::parser::replay(props::parser::Which::C02, w),
         "C03" => props::recovery::replay(w),
+        "C04" => props::grammar::replay(w),
         "C06" => props::ide_sweep::replay(props::ide_sweep::Which::C06, w),
         "C07" => props::rename::replay_c07(w),
         "C08" => props::rename::replay_c08(w),
